@@ -7,8 +7,12 @@ PROPS[1]="C03 C04 C06 C07 C08 C10 C18 C19"
 PROPS[2]="C01 C02 C05 C07 C08 C12 C18 C19"
 PROPS[3]="C02 C03 C04 C08 C09 C10 C14 C18"
 PROPS[4]="C01 C11 C13 C17 C18 C19 C20"
+PROPS[5]="C01 C02 C04 C05 C07 C10 C13 C16 C17 C18"
+PROPS[6]="C01 C03 C05 C08 C12 C14 C17 C18 C19"
+PROPS[7]="C03 C05 C06 C07 C11 C17 C18 C19 C20"
+PROPS[8]="C03 C04 C05 C08 C09 C10 C11 C16 C18"
 cd /verif
-for a in ${AGENTS:-1 2 3 4}; do for k in 1 2 3 4 5; do
+for a in ${AGENTS:-1 2 3 4 5 6 7 8}; do for k in 1 2 3 4 5; do
   P=/verif/quiet/set$a/refactor_$k.diff
   [ -f $P ] || continue
   git -C /var/tmp/repo_rf apply $P || { echo "== refac_$a/$k DOES NOT APPLY"; continue; }
